@@ -531,6 +531,86 @@ func c03Run(c *core.Ctx) {
 			return
 		}
 	}
+	// ---- E2b: custom_func argument VALUES: one special string at one position, the others benign ----
+	special := []string{"", " ", "0", "-0", "-1", "1", "00", "1.5", "1e400", "-1e400", "1e-400", "NaN", "Inf", "9223372036854775807", "9223372036854775808", "-9223372036854775809", "18446744073709551616",
+		"true", "TRUE", "x", "\x00", "\xff", "\u00e9", "%", "%s", "%!", "\\", "[", "(", ")", "*", "?", "+", "|", ",", "\n", "\t", "2006-01-02", "2006-01-02T15:04:05Z", "0000-00-00", "9999-12-31T23:59:59.999999999Z", "10000-01-01",
+		"America/New_York", "Invalid/Zone", "UTC", "Local", "../../etc/passwd", "SECOND", "MILLISECOND", "MINUTE", "yyyy-MM-dd", "01/02/2006", "Mon Jan _2", strings.Repeat("9", 400), strings.Repeat("a", 70000), "{}", "[1]", "{\"a\":", "null"}
+	for _, name := range c03FuncNames() {
+		if name == "javascript" || name == "javascript_with_context" {
+			continue // the first argument is program text: user scripts are outside the claim
+		}
+		for argc := 1; argc <= 4; argc++ {
+			for pos := 0; pos < argc; pos++ {
+				for _, benign := range []string{"1", "x"} {
+					for _, sp := range special {
+						idx++
+						if !c.Mine(idx) {
+							continue
+						}
+						args := make([]interface{}, argc)
+						for i := range args {
+							args[i] = gd{"const": benign}
+						}
+						args[pos] = gd{"const": sp, "no_trim": true}
+						ctxv := gd{"FINAL_OUTPUT": gd{"object": gd{"k": gd{"custom_func": gd{"name": name, "args": args}}}}}
+						cs := c03Case{Family: "custom-func-argument-value:" + name, Decls: ctxv}
+						c.Begin(func() interface{} { return cs })
+						sig, detail := c03Func(ctxv)
+						c.Eval(fmt.Sprintf("E2b|%s|%d|%d", name, argc, pos))
+						c.Count("custom_func_argument_values", 1)
+						if sig != "" {
+							report(sig, detail, cs)
+						}
+					}
+				}
+			}
+		}
+		if c.TimeUp() {
+			return
+		}
+	}
+	// ---- E1r: regular expressions at every place a pattern can be written ----
+	regexes := []string{"", ".*", "^", "$", "^$", "(", ")", "[", "[a", "a*", "a**", "(?i)x", "\\", "\\d+", "[^\\n]*", "(a|b)*", "x|", "|", ".{0,1000}", ".{1001}", "\\pL", "(?P<n>x)", "(?s).*", "(?m)^", "\\b", "\\z", "a{2,1}", "\\1", "(?=x)", "^H", "^.", "^\\s*$", ".", "\\x00", "\u00e9+", "^(H|D|T)", ".*?", "(((((((((((a)))))))))))"}
+	for _, it := range seeds {
+		if strings.HasPrefix(it.Name, "sample/") {
+			continue
+		}
+		var doc interface{}
+		if json.Unmarshal([]byte(it.Schema), &doc) != nil {
+			continue
+		}
+		inputs := it.Inputs
+		if len(inputs) > 2 {
+			inputs = inputs[:2]
+		}
+		for _, p := range gen.Positions(doc) {
+			if len(p.Path) == 0 {
+				continue
+			}
+			k, ok := p.Path[len(p.Path)-1].(string)
+			if !ok || (k != "line_pattern" && k != "header" && k != "footer") {
+				continue
+			}
+			if _, ok := gen.Get(doc, p).(string); !ok {
+				continue
+			}
+			for _, re := range regexes {
+				idx++
+				if !c.Mine(idx) {
+					continue
+				}
+				text := gen.Marshal(gen.Replace(doc, p, re))
+				cs := c03Case{Family: "regex:" + it.Name, Schema: text, InputS: inputs[0], Note: fmt.Sprintf("%s=%q", p, re)}
+				c.Begin(func() interface{} { return cs })
+				sig, detail, acc := c03Schema(text, it.Name, inputs)
+				c.Eval(fmt.Sprintf("E1r|%s|%v", it.Name, acc))
+				c.Count("regex_schemas", 1)
+				if sig != "" {
+					report(sig, detail+"\npattern: "+cs.Note, cs)
+				}
+			}
+		}
+	}
 	// ---- E3: inputs ----
 	L := 5
 	if !c.Quick() {
